@@ -4,5 +4,7 @@ CONSTANTS
   Slots = {0, 31, 32, 33, 100, 1000000007}
   GivenEpochs = {0, 3, 31250000}
   MaxBatch = 6
+  NReq = 1
+  ForkEpochs = {0}
 INVARIANTS Emit
 CHECK_DEADLOCK FALSE
